@@ -154,7 +154,9 @@ func c06Body(r *Run) {
 	slowPubClose := t.Chance(1, 4)
 	// (only without subscriber decorators: the transform decorator may drop a message unsettled when the subscription
 	// ends, which such a subscriber would wait for for ever)
-	subCloseWaits := !useGoChannel && nDec == 0 && t.Chance(1, 5)
+	// (and not together with a cancelled Run context: an implementation may then issue the Close itself, and a time-out
+	// of that call — the subscriber waiting for a message the router's context decorator dropped — would go unseen)
+	subCloseWaits := !useGoChannel && nDec == 0 && !cancelRun && t.Chance(1, 5)
 	for _, h := range hs {
 		if slowPubClose {
 			h.pub.CloseDelay = 50 * time.Millisecond
